@@ -68,7 +68,8 @@ def schemas(tier):
 def harnesses(tier, seed):
     hs, skipped = [], []
     for s in schemas(tier):
-        variants = ["codec"] if tier == "quick" and not s.name.startswith("U_") else ["codec", "field"]
+        key = {"U_is", "U_scalars", "U_i_n_date", "U_date_s", "U_p1_p2", "U_lit_mixed", "U_genc_int", "U_dict_of"}
+        variants = ["codec"] if tier == "quick" and s.name not in key else ["codec", "field"]
         for variant in variants:
             try:
                 hs.append(gen.custom_harness("C11", "c03", s, variant, "prefix='C11'", "prefix='C11'", name_suffix="_dec"))
